@@ -365,3 +365,80 @@ M['C03'] = [
     dict(id='c03-benign-count-prefix-increment', kind='benign', edits=[
         ('src/hash.c', '    HASH_LIST_INSERT(bk->n, hn);\n\n    h->count++;', '    h->count += 1;\n    hn->next = bk->n;\n    bk->n = hn;')]),
 ]
+
+# ------------------------------------------------------------------------------------------- C13
+M['C13'] = [
+    dict(id='c13-revert-pop-front-check', kind='fault', rule='N1', edits=[
+        ('src/slist.c', '    if (sl->count == 0) {\n        return NULL;\n    }\n    return __cstl_slist_element(sl, __cstl_slist_erase_after(sl, &sl->h));', '    return __cstl_slist_element(sl, __cstl_slist_erase_after(sl, &sl->h));')]),
+    dict(id='c13-front-without-empty-check', kind='fault', rule='N1', edits=[
+        ('src/slist.c', '    if (sl->t == &sl->h) {\n        return NULL;\n    }\n    return __cstl_slist_element(sl, sl->h.n);', '    return __cstl_slist_element(sl, sl->h.n);')]),
+    dict(id='c13-reverse-forgets-tail', kind='fault', rule='N2', edits=[
+        ('src/slist.c', '        sl->t = c;\n        assert(sl->t->n == NULL);\n    }\n}\n\nvoid cstl_slist_concat', '    }\n}\n\nvoid cstl_slist_concat')]),
+    dict(id='c13-concat-forgets-tail', kind='fault', rule='N2', edits=[
+        ('src/slist.c', '        dst->t->n = src->h.n;\n        dst->t = src->t;', '        dst->t->n = src->h.n;')]),
+    dict(id='c13-insert-after-forgets-tail', kind='fault', rule='N2', edits=[
+        ('src/slist.c', '    if (sl->t == in) {\n        sl->t = nn;\n    }\n\n    sl->count++;', '    sl->count++;')]),
+    dict(id='c13-erase-after-forgets-tail', kind='fault', rule='N2', edits=[
+        ('src/slist.c', '    if (sl->t == n) {\n        sl->t = e;\n    }\n', '')]),
+    dict(id='c13-swap-no-reanchor', kind='fault', rule='N3', edits=[
+        ('src/slist.c', '    CSTL_SLIST_FIX_SWAP(a);\n    CSTL_SLIST_FIX_SWAP(b);', '    CSTL_SLIST_FIX_SWAP(a);')]),
+    dict(id='c13-swap-reanchor-before-copy', kind='fault', rule='N3', edits=[
+        ('src/slist.c', '    cstl_swap(a, b, &t, sizeof(t));\n\n#ifndef NO_DOC', '#ifndef NO_DOC'),
+        ('src/slist.c', '#undef CSTL_SLIST_FIX_SWAP\n#endif', '#undef CSTL_SLIST_FIX_SWAP\n#endif\n    cstl_swap(a, b, &t, sizeof(t));')]),
+    dict(id='c13-foreach-reads-next-after-visit', kind='fault', rule='N4', edits=[
+        ('src/slist.c', '        struct cstl_slist_node * const n = c->n;\n        res = visit(__cstl_slist_element(sl, c), p);\n        c = n;', '        res = visit(__cstl_slist_element(sl, c), p);\n        c = c->n;')]),
+    dict(id='c13-foreach-ignores-stop', kind='fault', rule='N4', edits=[
+        ('src/slist.c', '    while (c != NULL && res == 0) {\n        struct cstl_slist_node * const n = c->n;\n        res = visit(', '    while (c != NULL) {\n        struct cstl_slist_node * const n = c->n;\n        res = visit(')]),
+    dict(id='c13-erase-after-no-count', kind='fault', rule='N5', edits=[
+        ('src/slist.c', '    assert(sl->t->n == NULL);\n\n    sl->count--;\n\n    return n;', '    assert(sl->t->n == NULL);\n\n    return n;')]),
+    dict(id='c13-insert-counts-only-at-tail', kind='fault', rule='N5', edits=[
+        ('src/slist.c', '    if (sl->t == in) {\n        sl->t = nn;\n    }\n\n    sl->count++;', '    if (sl->t == in) {\n        sl->t = nn;\n        sl->count++;\n    }\n')]),
+    dict(id='c13-concat-without-source-reinit', kind='fault', rule='N5', edits=[
+        ('src/slist.c', '        dst->count += src->count;\n\n        cstl_slist_init(src, src->off);', '        dst->count += src->count;\n        src->count = 0;')]),
+    dict(id='c13-benign-tail-update-other-idiom', kind='benign', edits=[
+        ('src/slist.c', '    if (sl->t == in) {\n        sl->t = nn;\n    }\n\n    sl->count++;', '    if (nn->n == NULL) {\n        sl->t = nn;\n    }\n\n    sl->count++;')]),
+    dict(id='c13-benign-pop-front-via-front', kind='benign', edits=[
+        ('src/slist.c', '    if (sl->count == 0) {\n        return NULL;\n    }\n    return __cstl_slist_element(sl, __cstl_slist_erase_after(sl, &sl->h));', '    if (sl->h.n != NULL) {\n        return __cstl_slist_element(sl, __cstl_slist_erase_after(sl, &sl->h));\n    }\n    return NULL;')]),
+    dict(id='c13-benign-foreach-for-loop', kind='benign', edits=[
+        ('src/slist.c', '    struct cstl_slist_node * c = sl->h.n;\n    int res = 0;\n\n    while (c != NULL && res == 0) {\n        struct cstl_slist_node * const n = c->n;\n        res = visit(__cstl_slist_element(sl, c), p);\n        c = n;\n    }\n\n    return res;',
+         '    struct cstl_slist_node * c, * n;\n    int res;\n\n    for (c = sl->h.n, res = 0; c != NULL; c = n) {\n        n = c->n;\n        res = visit(__cstl_slist_element(sl, c), p);\n        if (res != 0) {\n            return res;\n        }\n    }\n\n    return 0;')]),
+]
+
+# ------------------------------------------------------------------------------------------- C12
+M['C12'] = [
+    dict(id='c12-pop-back-without-empty-check', kind='fault', rule='D1', edits=[
+        ('src/dlist.c', 'void * cstl_dlist_pop_back(struct cstl_dlist * const l)\n{\n    if (l->size > 0) {\n        return __cstl_dlist_erase(l, l->h.p);\n    }\n    return NULL;\n}', 'void * cstl_dlist_pop_back(struct cstl_dlist * const l)\n{\n    return __cstl_dlist_erase(l, l->h.p);\n}')]),
+    dict(id='c12-swap-no-empty-fixup', kind='fault', rule='D2', edits=[
+        ('src/dlist.c', '        if (L->size == 0) {                     \\\n            L->h.n = L->h.p = &L->h;            \\\n        } else {                                \\\n            L->h.n->p = L->h.p->n = &L->h;      \\\n        }                                       \\', '        L->h.n->p = L->h.p->n = &L->h;          \\')]),
+    dict(id='c12-swap-fixes-only-first', kind='fault', rule='D2', edits=[
+        ('src/dlist.c', '    CSTL_DLIST_SWAP_FIX(a);\n    CSTL_DLIST_SWAP_FIX(b);', '    CSTL_DLIST_SWAP_FIX(a);')]),
+    dict(id='c12-swap-forgets-last-node', kind='fault', rule='D2', edits=[
+        ('src/dlist.c', '            L->h.n->p = L->h.p->n = &L->h;      \\', '            L->h.n->p = &L->h;                  \\')]),
+    dict(id='c12-concat-self', kind='fault', rule='D3', edits=[
+        ('src/dlist.c', '    if (d != s && d->off == s->off && s->size > 0) {', '    if (d->off == s->off && s->size > 0) {')]),
+    dict(id='c12-concat-no-source-reinit', kind='fault', rule='D3', edits=[
+        ('src/dlist.c', '        /* leave the original list in a usable state */\n        cstl_dlist_init(s, s->off);', '        s->size = 0;')]),
+    dict(id='c12-concat-size-not-added', kind='fault', rule='D3', edits=[
+        ('src/dlist.c', '        d->size += s->size;\n', '        d->size = s->size;\n')]),
+    dict(id='c12-foreach-directions-swapped', kind='fault', rule='D4', edits=[
+        ('src/dlist.c', '    case CSTL_DLIST_FOREACH_DIR_FWD:\n        next = __cstl_dlist_next;\n        break;\n    case CSTL_DLIST_FOREACH_DIR_REV:\n        next = __cstl_dlist_prev;', '    case CSTL_DLIST_FOREACH_DIR_FWD:\n        next = __cstl_dlist_prev;\n        break;\n    case CSTL_DLIST_FOREACH_DIR_REV:\n        next = __cstl_dlist_next;')]),
+    dict(id='c12-foreach-rev-walks-forward', kind='fault', rule='D4', edits=[
+        ('src/dlist.c', '    case CSTL_DLIST_FOREACH_DIR_REV:\n        next = __cstl_dlist_prev;', '    case CSTL_DLIST_FOREACH_DIR_REV:\n        next = __cstl_dlist_next;')]),
+    dict(id='c12-foreach-successor-after-visit', kind='fault', rule='D4', edits=[
+        ('src/dlist.c', '    for (c = *next(&l->h), n = *next(c);\n         res == 0 && c != &l->h;\n         c = n, n = *next(c)) {\n        res = visit(__cstl_dlist_element(l, c), p);\n    }',
+         '    for (c = *next(&l->h);\n         res == 0 && c != &l->h;\n         c = n) {\n        res = visit(__cstl_dlist_element(l, c), p);\n        n = *next(c);\n    }')]),
+    dict(id='c12-foreach-ignores-stop', kind='fault', rule='D4', edits=[
+        ('src/dlist.c', '         res == 0 && c != &l->h;\n         c = n, n = *next(c)) {', '         c != &l->h;\n         c = n, n = *next(c)) {')]),
+    dict(id='c12-erase-no-size', kind='fault', rule='D5', edits=[
+        ('src/dlist.c', '    n->p->n = n->n;\n\n    l->size--;', '    n->p->n = n->n;')]),
+    dict(id='c12-insert-double-count', kind='fault', rule='D5', edits=[
+        ('src/dlist.c', '    p->n = n;\n\n    l->size++;', '    p->n = n;\n\n    l->size++;\n    if (p == &l->h) {\n        l->size++;\n    }')]),
+    dict(id='c12-benign-swap-fix-as-function', kind='benign', edits=[
+        ('src/dlist.c', 'void cstl_dlist_swap(struct cstl_dlist * const a, struct cstl_dlist * const b)\n{', 'static void dlist_reanchor(struct cstl_dlist * const l)\n{\n    if (l->size != 0) {\n        l->h.n->p = &l->h;\n        l->h.p->n = &l->h;\n    } else {\n        l->h.n = &l->h;\n        l->h.p = &l->h;\n    }\n}\n\nvoid cstl_dlist_swap(struct cstl_dlist * const a, struct cstl_dlist * const b)\n{'),
+        ('src/dlist.c', '    CSTL_DLIST_SWAP_FIX(a);\n    CSTL_DLIST_SWAP_FIX(b);', '    dlist_reanchor(a);\n    dlist_reanchor(b);')]),
+    dict(id='c12-benign-foreach-while', kind='benign', edits=[
+        ('src/dlist.c', '    for (c = *next(&l->h), n = *next(c);\n         res == 0 && c != &l->h;\n         c = n, n = *next(c)) {\n        res = visit(__cstl_dlist_element(l, c), p);\n    }',
+         '    c = *next(&l->h);\n    while (c != &l->h) {\n        n = *next(c);\n        res = visit(__cstl_dlist_element(l, c), p);\n        if (res != 0) {\n            break;\n        }\n        c = n;\n    }')]),
+    dict(id='c12-benign-front-other-test', kind='benign', edits=[
+        ('src/dlist.c', 'void * cstl_dlist_front(struct cstl_dlist * const l)\n{\n    if (l->size > 0) {\n        return __cstl_dlist_element(l, l->h.n);\n    }\n    return NULL;', 'void * cstl_dlist_front(struct cstl_dlist * const l)\n{\n    if (l->h.n == &l->h) {\n        return NULL;\n    }\n    return __cstl_dlist_element(l, l->h.n);')]),
+]
